@@ -875,19 +875,29 @@ def rule_a6_spec(ctx):
         if len(k) != 1:
             raise AnalysisError('component decode loop not found in the record loop of %s' % f.short)
         pre, post = lp.body[:k[0]], lp.body[k[0] + 1:]
+        call = lp.body[k[0]].iter
+        sv = None
+        if len(call.args) >= 2 and isinstance(call.args[1], ast.Name):
+            sv = call.args[1].id
+        for kw_ in call.keywords:
+            if kw_.arg == 'asn1Spec' and isinstance(kw_.value, ast.Name):
+                sv = kw_.value.id
+        regions.specvar[f.short] = sv or specvar
         cut = [i for i, s_ in enumerate(post) if any(isinstance(c, ast.Call) and call_name(c) == 'setComponentByPosition' for c in ast.walk(s_))]
         if not cut:
             raise AnalysisError('component store not found in the record loop of %s' % f.short)
         # statements before the decode loop that only concern the end-of-octets probe / excess test are not part of
         # the selection; keep everything, the table ignores what does not assign the targets
         return pre, post[:cut[0]]
+    regions.specvar = {}
     try:
         pre_d, post_d = regions(fd, 'componentType')
         pre_i, post_i = regions(fi, 'asn1Spec')
-        al_d = dtable.single_aliases(recloop(fd).body, exclude=('componentType', 'idx', 'component'))
-        al_i = dtable.single_aliases(recloop(fi).body, exclude=('asn1Spec', 'idx', 'component'))
-        td, ad = dtable.table(pre_d, {'componentType'}, rename={'componentType': 'spec'}, aliases=al_d)
-        ti, ai = dtable.table(pre_i, {'asn1Spec'}, rename={'asn1Spec': 'spec'}, aliases=al_i)
+        sd_, si_ = regions.specvar[fd.short], regions.specvar[fi.short]     # the variable handed to decodeFun as the spec
+        al_d = dtable.single_aliases(recloop(fd).body, exclude=(sd_, 'idx', 'component'))
+        al_i = dtable.single_aliases(recloop(fi).body, exclude=(si_, 'idx', 'component'))
+        td, ad = dtable.table(pre_d, {sd_}, rename={sd_: 'spec'}, aliases=al_d)
+        ti, ai = dtable.table(pre_i, {si_}, rename={si_: 'spec'}, aliases=al_i)
         ud, aud = dtable.table(post_d, {'idx'}, aliases=al_d)
         ui, aui = dtable.table(post_i, {'idx'}, aliases=al_i)
     except dtable.Unknown as x:
